@@ -279,6 +279,16 @@ func check(in Input) *fail {
 					f = &fail{"valid-member-rejected", "nil", fmt.Sprintf("member %d: %v", i, err)}
 					return
 				}
+				// a table can be read while it is being filled: after every member the views say
+				// what the members so far amount to (and a later read is not held to an earlier one)
+				if i < len(in.Names)-1 && (len(in.Names) <= 8 || i%41 == 3) {
+					pre := Input{Bits: in.Bits, Path: in.Path, Names: in.Names[:i+1], Values: in.Values[:i+1]}
+					if pf := compareType(pre, e, reference(pre).byName); pf != nil {
+						pf.fp += "@while-filling"
+						f = pf
+						return
+					}
+				}
 			}
 			f = compareType(in, e, ex.byName)
 		case "text":
